@@ -9,6 +9,7 @@ Every model records what it assumes in engine.assumptions (reported as trusted_b
 from __future__ import annotations
 
 import ast
+from fractions import Fraction
 
 import numpy as np
 import z3
@@ -85,6 +86,10 @@ def counted(eng):
 def _count_nonzero(eng, args, kwargs):
     a = args[0]
     axis = kwargs.get("axis", args[1] if len(args) > 1 else None)
+    if isinstance(a, RowFamily):
+        if axis != 1:
+            raise Unsupported("np.count_nonzero of a symbolic-length list of rows with axis != 1")
+        return _count_rows(eng, a)
     if isinstance(a, PList) and a.items is not None and a.items and all(isinstance(x, SArr) for x in a.items):
         # a list of equally long 1-D arrays is a 2-D array (rows); axis=1 counts along each row
         used(eng, "np.count_nonzero(rows, axis=1) = per-row count")
@@ -106,6 +111,61 @@ def _count_nonzero(eng, args, kwargs):
         counted(eng).append((m, r))
         return r
     return npmodels._np_count_nonzero(eng, [a], {})
+
+
+# ------------------------------------------------------------------ a symbolic-length list of equally long 1-D arrays
+class RowFamily:
+    """[row(j) for j in seq]: n_rows 1-D arrays of one common length; `row` is an SArr whose terms mention the position
+    variable `j` (a z3 Int constant)"""
+
+    def __init__(self, j, n_rows, row):
+        self.j, self.n_rows, self.row = j, n_rows, row
+
+    def at(self, jz, iz):
+        return z3.substitute(self.row.get(iz).z, (self.j, jz))
+
+
+def _free_in(t, v):
+    seen, stack = set(), [t]
+    while stack:
+        x = stack.pop()
+        if x.get_id() in seen:
+            continue
+        seen.add(x.get_id())
+        if x.eq(v):
+            return True
+        stack.extend(x.children() if not z3.is_quantifier(x) else [x.body()])
+    return False
+
+
+def _rows_element(eng, vv, i, nz, kind):
+    if not (isinstance(vv, SArr) and kind == "list"):
+        return None
+    if _free_in(vv.nz(), i):
+        raise Unsupported("a list of 1-D arrays whose lengths depend on the position")
+    return RowFamily(i, nz, vv)
+
+
+def counted_rows(eng):
+    """ghost log: [(family: RowFamily (boolean rows), CNT: z3 function (row, prefix) -> count, result: SArr)]"""
+    return eng.ghost.setdefault("count_nonzero_rows_log", [])
+
+
+def _count_rows(eng, fam):
+    used(eng, "np.count_nonzero(symbolic-length list of equally long rows, axis=1) = per-row count (ghost function CNT(row, prefix) defined by its unfolding)")
+    row = _as_bool_sarr(eng, fam.row)
+    fam = RowFamily(fam.j, fam.n_rows, row)
+    tag = fresh_name("cntrows")
+    f = z3.Function(tag, z3.IntSort(), z3.IntSort(), z3.IntSort())
+    j, i = z3.Int("j_" + tag), z3.Int("i_" + tag)
+    b = z3.If(fam.at(j, i), 1, 0)
+    eng.assume(z3.ForAll([j], f(j, 0) == 0, patterns=[f(j, 0)]))
+    eng.assume(z3.ForAll([j, i], z3.Implies(i >= 0, f(j, i + 1) == f(j, i) + b), patterns=[f(j, i + 1)]))
+    eng.assume(z3.ForAll([j, i], z3.Implies(i >= 0, z3.And(f(j, i) >= 0, f(j, i) <= i)), patterns=[f(j, i)]))
+    q = z3.Int(fresh_name("q"))
+    res = SArr(z3.Lambda([q], f(q, row.nz())), fam.n_rows, "int", name="rowcounts")
+    counted_rows(eng).append((fam, f, res))
+    return res
 
 
 # ------------------------------------------------------------------ arange over the reals
@@ -241,6 +301,30 @@ def _degrees(eng, args, kwargs):
     return f(v)
 
 
+# ------------------------------------------------------------------ ceil / int of a symbolic real
+def _ceil(eng, args, kwargs):
+    v = args[0]
+    if isinstance(v, Sym):
+        used(eng, "np.ceil(x) = -floor(-x), floor = the integer-part function of SMT-LIB (to_int); returned as a float")
+        return Sym(-z3.ToReal(z3.ToInt(-to_z3(v, "real"))), "real")
+    if kind_of(v) is None:
+        raise Unsupported("np.ceil argument")
+    import math
+
+    return Fraction(math.ceil(models.frac(v)))
+
+
+_stock_int = models.BUILTIN_MODELS.get(int)
+
+
+def _int(eng, args, kwargs):
+    if len(args) == 1 and not kwargs and isinstance(args[0], Sym) and args[0].kind == "real":
+        used(eng, "int(x) of a float: truncation toward zero (to_int(x) for x >= 0, -to_int(-x) below)")
+        z = args[0].z
+        return eng.snum(z3.If(z >= 0, z3.ToInt(z), -z3.ToInt(-z)), "int")
+    return _stock_int(eng, args, kwargs)
+
+
 # ------------------------------------------------------------------ getattr / callable on interpreted objects
 def _getattr(eng, args, kwargs):
     from .values import Obj, Opaque
@@ -285,7 +369,11 @@ def install():
     models.EXTRA_MODELS[np.full] = _full
     models.EXTRA_MODELS[np.zeros] = _zeros
     models.EXTRA_MODELS[np.concatenate] = _concatenate
+    if _rows_element not in models.EXTRA_ELEMENT_HOOKS:
+        models.EXTRA_ELEMENT_HOOKS.append(_rows_element)
     models.EXTRA_MODELS[np.nonzero] = _nonzero
+    models.EXTRA_MODELS[np.ceil] = _ceil
+    models.EXTRA_MODELS[int] = _int
     models.EXTRA_MODELS[np.degrees] = _degrees
     models.EXTRA_MODELS[np.setdiff1d] = _setdiff1d
     models.EXTRA_MODELS[getattr] = _getattr
